@@ -45,6 +45,11 @@ type C19Case struct {
 	// GlobalFirst: the first --credentials entry is the catch-all *:* (and no entry names the origin), so that it is
 	// the one selected for the exchanges
 	GlobalFirst bool `json:"global_first,omitempty"`
+	// Clash (needs CredPasses): one more --credentials entry, well-formed, for the same target as entry ClashAt and with a
+	// password of its own (ClashPass). The binary refuses such a list; what it says while refusing is start-up log.
+	Clash     bool   `json:"clash,omitempty"`
+	ClashAt   int    `json:"clash_at,omitempty"`
+	ClashPass string `json:"clash_pass,omitempty"`
 	CredPasses []string `json:"cred_passes,omitempty"`    // passwords of --credentials entries (first: the origin, second: the upstream proxy host, third: *:*)
 	KeyFlags   []string `json:"key_flags,omitempty"`      // subset of tls, mitm, cacert: supplied as data: URIs
 	JSONLog    bool     `json:"json_log"`
@@ -106,6 +111,9 @@ func genC19(t *rapid.T) C19Case {
 		c.CredPasses = append(c.CredPasses, genSecret(t, fmt.Sprintf("cr%d", i), ",\"")) // list items are parsed as CSV: no ',' and no '"'
 	}
 	c.GlobalFirst = nc > 0 && rapid.IntRange(0, 2).Draw(t, "globalfirst") == 0
+	if nc > 0 && rapid.IntRange(0, 5).Draw(t, "clash") == 0 {
+		c.Clash, c.ClashAt, c.ClashPass = true, rapid.IntRange(0, nc-1).Draw(t, "clashat"), genSecret(t, "clash", ",\"")
+	}
 	if c.ProxyPass != "" && rapid.IntRange(0, 2).Draw(t, "socksproxy") == 0 {
 		c.ProxyScheme = "socks5"
 	}
@@ -266,6 +274,14 @@ func getEnv19() (*c19Env, error) {
 	return env19, env19Err
 }
 
+func cutLast(s, sep string) (string, string, bool) {
+	i := strings.LastIndex(s, sep)
+	if i < 0 {
+		return s, "", false
+	}
+	return s[:i], s[i+len(sep):], true
+}
+
 type secretSpec struct {
 	flag   string
 	user   string
@@ -354,6 +370,12 @@ func runC19(c C19Case) (fails []vstat.Failure) {
 		}
 		creds = append(creds, user+":"+p+"@"+hp)
 		secrets = append(secrets, secretSpec{"credentials", user, p, false})
+	}
+	if c.Clash && len(creds) > 0 {
+		at := c.ClashAt % len(creds)
+		_, target, _ := cutLast(creds[at], "@")
+		creds = append(creds, "clashuser:"+c.ClashPass+"@"+target)
+		secrets = append(secrets, secretSpec{"credentials", "clashuser", c.ClashPass, false})
 	}
 	if len(creds) > 0 {
 		add("credentials", strings.Join(creds, ","))
@@ -466,6 +488,28 @@ func runC19(c C19Case) (fails []vstat.Failure) {
 		// a configuration the binary rejects is outside the domain; the rejection message must still not leak
 		// a configuration the binary rejects is outside the property's domain (its usage error echoes the
 		// offending argument); counted so that the generator's hit rate stays visible
+		if c.Clash && len(c.CredPasses) > 0 {
+			// every option is well-formed; the list as a whole is refused. The refusal is part of the start-up log.
+			st.Class("refused-at-start-up:two-credentials-for-one-target")
+			out := stdout.String() + "\n" + stderr.String()
+			if logPath != "" {
+				if b, err := os.ReadFile(logPath); err == nil {
+					out += "\n" + string(b)
+				}
+			}
+			scan := secrets
+			if c.KeyForm != "" && c.KeyForm != "data:" {
+				// another spelling of the scheme may make the binary take the value for a file name (and refuse to start for
+				// that reason as well); only what it would have accepted as inline material is a secret to it
+				scan = nil
+				for _, s := range secrets {
+					if !s.pem {
+						scan = append(scan, s)
+					}
+				}
+			}
+			return scanSecrets("C19:leak", "start-up log of a run refused for two --credentials entries with one target", out, scan)
+		}
 		st.Class("config-rejected")
 		st.Note("C19: binary rejected a generated configuration (form %s): %s", c.Form, clip([]byte(firstLine(stdout.String()+stderr.String()))))
 		return nil
